@@ -182,75 +182,107 @@ def _winners(chk, ctx) -> None:
     chk.floor('C02.winners', 2)
 
 
-def _types(chk, ctx) -> None:
-    """the hand types a sub-pot is split over are data-dependent on the pot's eligible players"""
-    fi = ctx.sfi('_begin_chips_pushing')
-    site = None
-    ok = False
-    got = ''
-    for p in ctx.paths(fi):
-        for k, e in enumerate(p.events):
-            if e.kind == 'call' and e.term[0] == 'mcall' and e.term[2] == 'append' and e.term[1][0] in ('list', 'name') \
-                    and isinstance(e.node.func.value, ast.Name):
-                lname = e.node.func.value.id
-                # is this the list whose length divides the sub-pot?
-                if not _feeds_divisor(fi, lname):
+def backward_slice(fn, seeds):
+    """expressions the given local names may depend on inside ``fn`` (flow-insensitive backward slice over locals): values
+    assigned / appended / extended to them, iterables their loop variables range over, and the tests and loop headers those
+    statements are controlled by - transitively through every local mentioned on the way"""
+    parents = {}
+    for n in ast.walk(fn):
+        for c in ast.iter_child_nodes(n):
+            parents[id(c)] = n
+
+    def controls(node):
+        out = []
+        cur = node
+        while id(cur) in parents:
+            par = parents[id(cur)]
+            if isinstance(par, (ast.If, ast.While)) and cur is not par.test:
+                out.append(par.test)
+            if isinstance(par, ast.For) and cur is not par.iter:
+                out.append(par.iter)
+            if isinstance(par, ast.comprehension):
+                out.append(par.iter)
+                out.extend(par.ifs)
+            if isinstance(par, (ast.ListComp, ast.SetComp, ast.GeneratorExp, ast.DictComp)):
+                for g in par.generators:
+                    out.append(g.iter)
+                    out.extend(g.ifs)
+            cur = par
+        return out
+    names = set(seeds)
+    exprs = []
+    seen_expr = set()
+    changed = True
+    while changed:
+        changed = False
+        for n in ast.walk(fn):
+            deps = []
+            if isinstance(n, (ast.Assign, ast.AnnAssign, ast.AugAssign)):
+                tg = n.targets if isinstance(n, ast.Assign) else [n.target]
+                hit = any(isinstance(x, ast.Name) and x.id in names for t in tg for x in ast.walk(t) if isinstance(getattr(x, 'ctx', None), ast.Store))
+                if hit and n.value is not None:
+                    deps = [n.value] + controls(n)
+            elif isinstance(n, ast.Call) and isinstance(n.func, ast.Attribute) and isinstance(n.func.value, ast.Name) and n.func.value.id in names \
+                    and n.func.attr in ('append', 'extend', 'add', 'insert', 'update', 'appendleft'):
+                deps = list(n.args) + controls(n)
+            elif isinstance(n, ast.For):
+                if any(isinstance(x, ast.Name) and x.id in names for x in ast.walk(n.target)):
+                    deps = [n.iter] + controls(n)
+            elif isinstance(n, ast.comprehension):
+                if any(isinstance(x, ast.Name) and x.id in names for x in ast.walk(n.target)):
+                    deps = [n.iter] + list(n.ifs) + controls(n)
+            for d in deps:
+                if id(d) in seen_expr:
                     continue
-                site = e
-                # conditions established since the enclosing loop over hand types began
-                conds = [unversion(x.term) for x in p.events[:k] if x.kind == 'assume']
-                dep = [c for c in conds if c[0] == 'isnot' and ('const', None) in c[1]
-                       and T.mentions(c, lambda s: isinstance(s, tuple) and len(s) == 3 and s[0] == 'attr' and s[2] == 'player_indices')]
-                got = '; '.join(T.show(c)[:120] for c in conds if c[0] == 'isnot')
-                if dep:
-                    ok = True
-        if ok:
-            break
-    comp = None
-    if site is None:
-        # the same list written as a comprehension: [k for k in <hand types> if <somebody holds a hand of type k>]
-        for n in walk_no_nested(fi.node):
-            if isinstance(n, ast.Assign) and len(n.targets) == 1 and isinstance(n.targets[0], ast.Name) and isinstance(n.value, ast.ListComp) \
-                    and _feeds_divisor(fi, n.targets[0].id):
-                comp = n
-        if comp is None:
-            raise AnalysisError('_begin_chips_pushing: list of hand types in play not found')
-        class _S:
-            node = comp
-        site = _S
-        tests = [T.norm(t) for g in comp.value.generators for t in g.ifs]
-        ok = any(T.mentions(t, lambda s: isinstance(s, tuple) and len(s) == 3 and s[0] == 'attr' and s[2] == 'player_indices') for t in tests)
-        got = '; '.join(T.show(t)[:120] for t in tests)
-    chk.ob('C02.types_depend_on_pot', 'State._begin_chips_pushing', ok, ctx.loc(fi, site.node),
+                seen_expr.add(id(d))
+                exprs.append(d)
+                for x in ast.walk(d):
+                    if isinstance(x, ast.Name) and isinstance(x.ctx, ast.Load) and x.id not in names and x.id not in ('self',):
+                        names.add(x.id)
+                        changed = True
+    return exprs, names
+
+
+def _types(chk, ctx) -> None:
+    """the hand types a sub-pot is split over are data-dependent on the pot's eligible players (and on the board)"""
+    fi = ctx.sfi('_begin_chips_pushing')
+    fn = fi.node
+    # the divisor of the hand-type split: self.divmod(<per-board amount>, len(L)) - L is the list of hand types in play
+    lname = site = None
+    for n in walk_no_nested(fn):
+        if isinstance(n, ast.Call) and self_attr(n.func) == 'divmod' and len(n.args) == 2:
+            d = n.args[1]
+            if isinstance(d, ast.Name):
+                defs = [a for a in walk_no_nested(fn) if isinstance(a, ast.Assign) and isinstance(a.targets[0], ast.Name) and a.targets[0].id == d.id]
+                d = defs[0].value if len(defs) == 1 else d
+            if isinstance(d, ast.Call) and isinstance(d.func, ast.Name) and d.func.id == 'len' and len(d.args) == 1 and isinstance(d.args[0], ast.Name):
+                lname, site = d.args[0].id, n
+    if lname is None:
+        raise AnalysisError('_begin_chips_pushing: list of hand types in play not found')
+    exprs, names = backward_slice(fn, {lname})
+    # the pot whose sub-pots are queued: the loop variable bound from self._pots
+    pot_vars = set()
+    for n in walk_no_nested(fn):
+        if isinstance(n, ast.For) and 'self._pots' in ast.unparse(n.iter):
+            pot_vars |= {x.id for x in ast.walk(n.target) if isinstance(x, ast.Name)}
+    dep_pot = any(isinstance(x, ast.Attribute) and x.attr == 'player_indices' and isinstance(x.value, ast.Name) and x.value.id in pot_vars
+                  for e in exprs for x in ast.walk(e))
+    tests_none = any(isinstance(x, ast.Compare) and any(isinstance(o, (ast.IsNot, ast.Is)) for o in x.ops)
+                     and any(isinstance(c, ast.Constant) and c.value is None for c in x.comparators) for e in exprs for x in ast.walk(e))
+    chk.ob('C02.types_depend_on_pot', 'State._begin_chips_pushing', dep_pot and tests_none, ctx.loc(fi, site),
            "a hand type takes part in the split of a (side) pot only if one of THAT pot's eligible players holds a hand of the type "
            "(two pots with different contenders must be able to split differently)",
-           got=got or 'the hand-type test does not mention pot.player_indices', want='is not None test on a hand of a player in pot.player_indices')
+           got='the list of hand types in play depends on: ' + ', '.join(sorted(n for n in names if n != lname))[:200],
+           want='a dependence on <pot>.player_indices through an `is not None` test of a hand')
     chk.floor('C02.types_depend_on_pot', 1)
-    # ... and on the board the sub-pot is queued for (a low may qualify on one board only)
-    ok_b = False
-    got_b = ''
-    for p in ctx.paths(fi):
-        recs = [e for e in p.writes() if T.root_self_attr(e.term) == '_sub_pots' and e.op == 'call:append' and e.value[1]]
-        for e in recs:
-            rec = unversion(e.value[1][0])
-            if rec[0] != 'tuple' or len(rec[1]) != 4 or rec[1][2] == ('const', None):
-                continue
-            board = rec[1][2]
-            k = p.events.index(e)
-            tests = [unversion(x.term) for x in p.events[:k] if x.kind == 'assume' and unversion(x.term)[0] == 'isnot'
-                     and T.mentions(unversion(x.term), lambda s: isinstance(s, tuple) and len(s) == 3 and s[0] == 'attr' and s[2] == 'player_indices')]
-            if tests:
-                got_b = T.show(tests[-1])[:160]
-                ok_b = all(T.mentions(t, lambda s: s == board) for t in tests)
-    if comp is not None:
-        loops = [n for n in walk_no_nested(fi.node) if isinstance(n, ast.For) and any(x is comp for x in ast.walk(n)) and isinstance(n.target, ast.Name)]
-        boards = [n.target.id for n in loops if ctx.m.eq(T.norm(n.iter), 'self.board_indices')]
-        tests = [t for g in comp.value.generators for t in g.ifs]
-        ok_b = bool(boards) and all(any(isinstance(x, ast.Name) and x.id == boards[-1] for x in ast.walk(t)) for t in tests)
-        got_b = '; '.join(ast.unparse(t)[:120] for t in tests)
-    chk.ob('C02.types_depend_on_board', 'State._begin_chips_pushing', ok_b, fi.loc,
+    board_vars = set()
+    for n in walk_no_nested(fn):
+        if isinstance(n, ast.For) and ctx.m.eq(T.norm(n.iter), 'self.board_indices') and any(x is site for x in ast.walk(n)):
+            board_vars |= {x.id for x in ast.walk(n.target) if isinstance(x, ast.Name)}
+    dep_board = bool(board_vars) and any(isinstance(x, ast.Name) and x.id in board_vars for e in exprs for x in ast.walk(e))
+    chk.ob('C02.types_depend_on_board', 'State._begin_chips_pushing', dep_board, fi.loc,
            'whether a hand type takes part in the split is decided per board, on the hands of the very board the sub-pot is queued for',
-           got=got_b)
+           got=f'board variable(s) {sorted(board_vars)} in the slice: {dep_board}')
 
 
 def _feeds_divisor(fi, lname) -> bool:
